@@ -137,6 +137,15 @@ CHECKS["C19"] = dict(
     note="A rulegen crash is C08's concern (inconclusive here). Failing self-validations are attributed to value classes so that the two known findings stay narrow.",
     ref="DESIGN.md §6 P-C19")
 
+CHECKS["C18"] = dict(
+    technique="runtime monitoring: reference-model monitor (independent Python implementation of docs/FUNCTIONS.md) over observed function results",
+    text="`let r = f(args)` is evaluated for every function x 19 argument queries (unicode, numeric strings, mixed-type lists, unresolved members, empty "
+         "selections) x literal/query/variable/nested forms, substring over 13x13 offsets (incl. -1, len, >=65536), join delimiters and empty members, "
+         "regex_replace full/partial/no match, random literals, and json round trips on random documents; the result list is read back through a failing "
+         "clause on %r and compared, type-strictly and in order, with the reference; unparsable input must raise an error, never a value.",
+    note="The reference abstains (UNSPEC, counted in evidence) where the documentation is silent; Python re / urllib / float parsing are trusted on the restricted inputs.",
+    ref="DESIGN.md §6 P-C18")
+
 PENDING = {}
 
 
